@@ -12,7 +12,10 @@ import ZV.Model.C18
     `perm_extends_time_field` in ZV/Props/C20.lean, T2 stream `c20 tpc` / `c20 tu`; `time.Time` is not a leaf of
     the deep embedding, so time FIELDS of structs are covered by the certificate-level oracle T3 only);
   * `x509Sites` — the uses in `x509/x509.go` (`parsePublicKey`, `parseGeneralNames`, `parseCertificate`);
-    not modelled in Lean: pinned here by shape and covered by the certificate-level oracle T3.
+    modelled in `ZV.Model.C20X` (one Lean function per enclosing decision, the flag as `perm`), proved conservative in
+    ZV/Props/C20.lean (`perm_extends_parsePublicKey`, `_parseGeneralNames`, `_extStep`, … ; `siteModels` links every
+    site to its model and theorem, `x509_sites_modelled` links `siteModels` to the generated inventory), T2 streams
+    `c20 xpk / xgn / xpc / xsch`.
 -/
 namespace ZV.C20
 
